@@ -63,6 +63,7 @@ type Ctx struct {
 	nfuncs  map[*Fn]bool
 	GOOS    string
 	loaded  bool
+	noFollow map[string]bool // functions the effect engine must not treat as helpers (they are rule roots themselves)
 }
 
 type propDef struct {
@@ -139,7 +140,7 @@ func (c *Ctx) Pkg(path string) *packages.Package {
 
 func newCtx(prop, tier, repo, verif string) *Ctx {
 	return &Ctx{Prop: prop, Tier: tier, Repo: repo, Verif: verif, seen: map[string]int{}, floors: map[string][2]int{},
-		extra: map[string]any{}, fns: map[ast.Node]*Fn{}, nfuncs: map[*Fn]bool{}, Pkgs: map[string]*packages.Package{}}
+		extra: map[string]any{}, noFollow: map[string]bool{}, fns: map[ast.Node]*Fn{}, nfuncs: map[*Fn]bool{}, Pkgs: map[string]*packages.Package{}}
 }
 
 // load parses and type-checks every package of the repository's current working tree.
